@@ -151,17 +151,32 @@ func (r *chunkReader) Read(p []byte) (int, error) {
 
 // faultReader delivers data[:k] and then fails: once (then EOF) or forever.
 type faultReader struct {
-	data    []byte
-	forever bool
-	failed  bool
-	chunk   int
+	data     []byte
+	forever  bool
+	failed   bool
+	chunk    int
+	together bool // the last bytes are returned together with the error (allowed by io.Reader)
+	err      error // the error to fail with (errInjected when nil)
+}
+
+func (r *faultReader) fault() error {
+	if r.err != nil {
+		return r.err
+	}
+	return errInjected
 }
 
 func (r *faultReader) Read(p []byte) (int, error) {
+	if r.together && !r.failed && len(r.data) > 0 && len(r.data) <= len(p) && (r.chunk == 0 || len(r.data) <= r.chunk) {
+		n := copy(p, r.data)
+		r.data = nil
+		r.failed = true
+		return n, r.fault()
+	}
 	if len(r.data) == 0 {
 		if r.forever || !r.failed {
 			r.failed = true
-			return 0, errInjected
+			return 0, r.fault()
 		}
 		return 0, io.EOF
 	}
@@ -211,3 +226,46 @@ func marshalKeeps(first []byte, other func()) bool {
 }
 
 var vMarshalAliased = L(I(3), S("a MarshalText result is overwritten by later MarshalText calls"))
+
+// ---- "poison then use" ---------------------------------------------------------
+// Before the call that is observed, the writers are used once in ways that fail: a
+// destination that errors at once, one that errors after a few bytes, one that
+// panics. All of it is recovered and ignored. Internal state that survives a failed
+// call (a pooled buffer that is only reset on success, a cached partial result) then
+// shows in the observed call.
+
+type panicWriter struct{ after int }
+
+func (w *panicWriter) Write(p []byte) (int, error) {
+	if w.after <= 0 {
+		panic("injected writer panic")
+	}
+	w.after--
+	return len(p), nil
+}
+
+func poisonWriters(write func(w io.Writer) error) {
+	// the last ones fail at the first byte: a writer that makes a single Write call must end up failed
+	for _, w := range []io.Writer{&panicWriter{after: 1}, &limitWriter{limit: 3}, &panicWriter{after: 0}, &limitWriter{limit: 0}} {
+		func() {
+			defer func() { recover() }()
+			write(w)
+		}()
+	}
+}
+
+// fullButFailingWriter accepts every byte it is given (n == len(p)) but returns an
+// error from the call in which the total reaches failAt: a legal io.Writer.
+type fullButFailingWriter struct {
+	failAt int
+	n      int
+}
+
+func (w *fullButFailingWriter) Write(p []byte) (int, error) {
+	before := w.n
+	w.n += len(p)
+	if before <= w.failAt && w.failAt < w.n {
+		return len(p), errWriteInjected
+	}
+	return len(p), nil
+}
